@@ -11,11 +11,11 @@ Open Scope N_scope.
 
 (* the text of one instruction statement, written as the tokens ws (any rendering of the statement: redundant parentheses,
    any spelling of each number) with the separators seps, is read back as that statement *)
-Lemma stmt_of_text_spelled name args ws seps :
+Lemma stmt_of_text_spelled : forall name args ws seps,
   RendStmts [EInstruction name args] (map wtok_val ws) -> Forall wtok_ok ws -> wseps_ok ws seps ->
   stmt_of_text (showw ws seps) = Some (name, args).
 Proof.
-  intros R OK S. destruct (textw_roundtrip _ ws seps R OK S) as [els [P M]]. unfold stmt_of_text. rewrite P.
+  intros name args ws seps R OK S. destruct (textw_roundtrip _ ws seps R OK S) as [els [P M]]. unfold stmt_of_text. rewrite P.
   destruct els as [|e [|e' els]]; cbn [map] in M; try discriminate M. injection M as M. cbn [map]. now rewrite M.
 Qed.
 
